@@ -18,7 +18,7 @@ for patch in sorted(glob.glob(base + '/*/*/patch.diff')):
     files = [l[6:].strip() for l in open(patch, errors='replace') if l.startswith('+++ b/')]
     files += [l[6:].strip() for l in open(patch, errors='replace') if l.startswith('--- a/')]
     props = [pid] + sorted(p for p in anch if p != pid and anch[p] & set(files))
-    out = subprocess.run(['/verif/tools/mut.sh', patch] + props, capture_output=True).stdout.decode('utf-8', 'replace')
+    out = subprocess.run([os.environ.get('VERIF_HOME', '/verif') + '/tools/mut.sh', patch] + props, capture_output=True).stdout.decode('utf-8', 'replace')
     entry = {}
     for line in out.splitlines():
         if line.startswith('PATCH-DOES-NOT-APPLY'): entry['error'] = 'patch does not apply'
